@@ -38,6 +38,17 @@ Theorem C01_bonding_step : forall legacy arom ES s acc s' acc',
               Forall (fun bd => exists e, In e ES /\ b_src bd = ce_a e /\ b_tgt bd = ce_b e) new.
 Proof. exact forced_fold. Qed.
 
+(** "in whatever order the base graph lists its nodes": the created bonds do not depend on the
+    order of the base edges *)
+Theorem C01_base_edge_order_independent : forall legacy arom ES ES' s s1 b1 s2 b2,
+  Permutation ES ES' -> wf_state s ->
+  Forall (ded_in legacy s) ES -> ForallOrdPairs disjoint_edges ES ->
+  Forall (ded_in legacy s) ES' -> ForallOrdPairs disjoint_edges ES' ->
+  edges_from_bonding legacy arom (map edge_of ES) s [] = Ok (s1, b1) ->
+  edges_from_bonding legacy arom (map edge_of ES') s [] = Ok (s2, b2) ->
+  Permutation (map bond_cp b1) (map bond_cp b2).
+Proof. exact forced_fold_order_independent. Qed.
+
 Theorem C01_disjointness_test_sound : forall es,
   pairwise_b disjoint_edges_b es = true -> ForallOrdPairs disjoint_edges es.
 Proof. exact pairwise_b_sound. Qed.
@@ -67,4 +78,5 @@ Proof. split; [vm_compute; reflexivity|]. split; [vm_compute; reflexivity|]. eex
 Print Assumptions C01_bonding_partial.
 Print Assumptions C01_bonding_step.
 Print Assumptions C01_disjointness_test_sound.
+Print Assumptions C01_base_edge_order_independent.
 Print Assumptions C01_hypothesis_test_sound.
